@@ -301,6 +301,10 @@ def main(argv):
                 print(f"[{prop}] internal error (attempt {attempt}): {e}", file=sys.stderr)
                 if attempt == 2:
                     return 3
+            except Exception:
+                print(f"[{prop}] internal error (attempt {attempt}): {traceback.format_exc()[-3000:]}", file=sys.stderr)
+                if attempt == 2:
+                    return 3
         return 3
     print("usage: vcheck run CXX [--tier quick|thorough] | vcheck replay <file>")
     return 2
